@@ -12,6 +12,7 @@ OPS = {
     "setactive": ("s",),
     "setactive-none": ("",),   # SETACTIVE "" (deactivate): an operation like any other
     "renamescript": ("a", "b"),
+    "renamescript-same": ("a", "a"),   # RENAMESCRIPT "a" "a": the server's answer decides (NONEXISTENT / ALREADYEXISTS / OK), not the client
     "listscripts": (),
     "getscript": ("a",),
     "capability": (),
@@ -90,7 +91,7 @@ def status_task(t):
         if op in DATA and code == b"OK":
             datas = list(range(len(DATA[op])))
         for di in datas:
-            srv = W.ScriptedServer(store={"a": b"keep;\r\n"}, active="a", version=(op in ("checkscript", "renamescript")))
+            srv = W.ScriptedServer(store={"a": b"keep;\r\n"}, active="a", version=(op in ("checkscript", "renamescript", "renamescript-same")))
             s = wire.open_session(srv, debug=debug)
             reply = (DATA[op][di] if di is not None else b"") + line
             srv.script = [reply]
